@@ -481,6 +481,11 @@ impl Mp4Track {
             let first_chunk = stsc_entry.first_chunk;
             let first_sample = stsc_entry.first_sample;
             let samples_per_chunk = stsc_entry.samples_per_chunk;
+            if samples_per_chunk == 0 {
+                return Err(Error::InvalidData(
+                    "stsc entry with zero samples per chunk",
+                ));
+            }
 
             let chunk_id = sample_id
                 .checked_sub(first_sample)
@@ -494,12 +499,16 @@ impl Mp4Track {
 
             let first_sample_in_chunk = sample_id - (sample_id - first_sample) % samples_per_chunk;
 
-            let mut sample_offset = 0;
+            let mut sample_offset = 0u64;
             for i in first_sample_in_chunk..sample_id {
-                sample_offset += self.sample_size(i)?;
+                sample_offset += self.sample_size(i)? as u64;
             }
 
-            Ok(chunk_offset + sample_offset as u64)
+            chunk_offset
+                .checked_add(sample_offset)
+                .ok_or(Error::InvalidData(
+                    "attempt to calculate stbl sample offset with overflow",
+                ))
         }
     }
 
